@@ -70,6 +70,7 @@ def gen(rng, n):
 
 
 def correspondence(ctx):
+    boundary_sweep(ctx, 150 if ctx.tier == 'quick' else 3000)
     rng = random.Random(ctx.seed)
     groups = gen(rng, 60 if ctx.tier == 'quick' else 2500)
     res = ctx.run_impl('c05_impl.py', {'groups': groups})
@@ -154,10 +155,18 @@ def correspondence(ctx):
     })
 
 
+def boundary_sweep(ctx, n):
+    """never infinite / NaN at and before t0, evaluated on the implementation with all operands in one float type,
+    small and large length units, arrival times from the first representable value after t0 (c05_sweep.py)"""
+    res = ctx.run_impl('c05_sweep.py', {'seed': ctx.seed, 'n': n})
+    ctx.coverage['boundary_sweep_results_checked'] = ctx.coverage.get('boundary_sweep_results_checked', 0) + res.get('checked', 0)
+    return res.get('harness_violations') or []
+
+
 def search(ctx, broken):
-    # the correspondence already evaluates the property statement (conservation, NaN pattern, no infinities)
-    # on the implementation; nothing further to explore here
-    return []
+    # the correspondence already evaluates conservation and the NaN pattern on the implementation; the sweep below
+    # evaluates the "never infinite" clause over many more (dtype, unit) corners
+    return [v['key'] for v in boundary_sweep(ctx, 3000)]
 
 
 def replay(ctx, obj):
